@@ -264,8 +264,30 @@ func c14Accept(c *Ctx, cg *core.CallGraph) {
 			break
 		}
 		cc, _ := core.CallResult(src)
+		// a helper whose every non-nil result is produced by temperror.New
+		allTemp, nTemp := true, 0
+		eachValue(src, func(x ssa.Value) {
+			for _, y := range flattenPhi(x) {
+				for {
+					if mi, ok := y.(*ssa.MakeInterface); ok {
+						y = mi.X
+						continue
+					}
+					break
+				}
+				if core.IsNilConst(y) {
+					continue
+				}
+				tc, _ := core.CallResult(y)
+				if tc != nil && core.CalleeName(tc.Common()) == mod+"/util/temperror.New" {
+					nTemp++
+				} else {
+					allTemp = false
+				}
+			}
+		}, mod+"/util/temperror.New", mod+"/protocol.NewConn")
 		switch {
-		case cc != nil && core.CalleeName(cc.Common()) == mod+"/util/temperror.New":
+		case cc != nil && core.CalleeName(cc.Common()) != mod+"/protocol.NewConn" && allTemp && nTemp > 0:
 			r.Check(core.IsNilConst(conn), "R-C14.2", construct+" per-connection failure", p.Pos(ret.Pos()), "temporary error, nil connection", "a temporary error is returned together with a connection")
 		case cc != nil && core.CalleeName(cc.Common()) == mod+"/protocol.NewConn":
 			okNC, why := newConnCannotFail(c, cc)
@@ -334,6 +356,16 @@ func c14Accept(c *Ctx, cg *core.CallGraph) {
 		for _, cl := range callsNamed(acc, "(*crypto/tls.Conn).Close") {
 			if core.Strip(cl.Call.Args[0]) == tlsConn {
 				closes[cl.Block()] = true
+			}
+		}
+		// a helper that closes the connection it is given on every path
+		closeBase := func(in ssa.Instruction, isAlias func(ssa.Value) bool) bool {
+			cl, ok := core.IsCallTo(in, "(*crypto/tls.Conn).Close")
+			return ok && len(cl.Args) > 0 && isAlias(cl.Args[0])
+		}
+		for _, ci := range core.Helpers(acc) {
+			if core.CallConsumes(p, ci, func(v ssa.Value) bool { return core.Strip(v) == tlsConn }, closeBase, 0) {
+				closes[ci.Block()] = true
 			}
 		}
 		for i, ret := range core.Returns(acc) {
